@@ -52,6 +52,11 @@ def main() -> None:
             na.append({"property_id": pid, "reason": "static check for this property is not built yet (work in progress)"})
             continue
         mod = importlib.import_module(f"a816lint.rules.{pid.lower()}")
+        tech = getattr(mod, "TECHNIQUE", TECHNIQUE.get(pid, "static analysis: repository-specific AST/CFG rules over /repo's source"))
+        if any(r.__name__.startswith("rm_") for r in mod.RULES):
+            tech += "; effect analysis of process-lifetime and pass-lifetime results (memoising decorators, module-level stores, mutable defaults, value memos) attributed by ownership"
+        if pid == "C15":
+            tech += "; exponential-ambiguity test of regex literals on their product automaton"
         checks.append({
             "property_id": pid,
             "quick_cmd": f"./check {pid} --tier quick",
@@ -67,7 +72,7 @@ def main() -> None:
             "level_note": getattr(mod, "LEVEL_NOTE", "Trusted base: CPython ast/struct.calcsize, the a816lint engine, the reference "
                                   "data under /verif/refdata. Decides the named structural clauses only; residues listed in the "
                                   "evidence file's assumptions are not decided."),
-            "technique": getattr(mod, "TECHNIQUE", TECHNIQUE.get(pid, "static analysis: repository-specific AST/CFG rules over /repo's source")),
+            "technique": tech,
         })
     manifest = {
         "version": 1,
